@@ -15,6 +15,7 @@ LEVEL_TEXT = ('Bounded symbolic verification on the real BGPPeering/BGP objects:
               'version=4, effective AS = configured remote AS, hold not 1 or 2, with hold = min; (3) AS numbers of a later UPDATE '
               'are read as 4-octet iff both sides advertised capability 65 in this session.')
 LEVEL_NOTE = 'Twisted as modelled; configured times are read by FSM.__init__ (symbolic values are placed there, oslo.config would coerce them).'
+LEVEL_ADDED = 'Also: acceptance with the peer identifier of an earlier session still remembered (same / different).'
 TECHNIQUE = 'symbolic execution of send_open/_open_received/negotiate_hold_time over two consecutive sessions (CrossHair+z3) with an independent OPEN reader'
 EXPLANATION = 'C05: OPEN content vs configuration across sessions; acceptance predicate; 4-octet-AS mode.'
 BOUNDS = 'local AS 1..2^32-1, hold 0|3..65535, id 1..2^32-1 symbolic; capability subsets enumerated; one earlier session (symbolic proposed hold, enumerated peer capability sets and outcomes)'
